@@ -17,6 +17,7 @@
 package main
 
 import (
+	"bytes"
 	"encoding/json"
 	"fmt"
 	"math"
@@ -25,22 +26,23 @@ import (
 	. "adharness/common"
 
 	ad "github.com/pbenner/autodiff"
+	stat "github.com/pbenner/autodiff/statistics"
 )
 
 type OpJ struct {
-	Op     string      `json:"op"` // start | final | params | clone
+	Op     string      `json:"op"` // start | final | params | clone | config (round 6: ImportConfig(json(ExportConfig())))
 	States []int       `json:"states,omitempty"`
 	Pi     []float64   `json:"pi,omitempty"`
 	Tr     [][]float64 `json:"tr,omitempty"`
 }
 
 type StepObs struct {
-	Err    bool
+	Err    int // 0 nil error, 1 error returned, 2 panic (recovered)
 	Pi     []float64
 	Tr, Tf [][]float64
 }
 
-func snapObj(o *hmmObj, err bool) StepObs {
+func snapObj(o *hmmObj, err int) StepObs {
 	h := o.g
 	m := h.M
 	s := StepObs{Err: err, Pi: make([]float64, m)}
@@ -74,19 +76,25 @@ func buildHist(c Case) (*hmmObj, error) {
 	return build(b)
 }
 
-func applyOp(o *hmmObj, c Case, op OpJ) (err bool) {
+func applyOp(o *hmmObj, c Case, op OpJ) (kind int) {
+	e2k := func(e error) int {
+		if e != nil {
+			return 1
+		}
+		return 0
+	}
 	switch op.Op {
 	case "start":
-		return o.g.SetStartStates(op.States) != nil
+		return e2k(o.g.SetStartStates(op.States))
 	case "final":
-		return o.g.SetFinalStates(op.States) != nil
+		return e2k(o.g.SetFinalStates(op.States))
 	case "params":
 		p := logParams(c.Real, op.Pi, op.Tr)
 		if o.v != nil {
 			// the wrapper: the HMM part only (no emission parameters follow)
-			return o.v.SetParameters(p) != nil
+			return e2k(o.v.SetParameters(p))
 		}
-		return o.g.SetParameters(p) != nil
+		return e2k(o.g.SetParameters(p))
 	case "clone":
 		if o.v != nil {
 			v := o.v.Clone()
@@ -94,9 +102,47 @@ func applyOp(o *hmmObj, c Case, op OpJ) (err bool) {
 		} else {
 			o.g = o.g.Clone()
 		}
-		return false
+		return 0
+	case "config":
+		return configRoundTrip(o)
 	}
 	panic("unknown op " + op.Op)
+}
+
+// obj.ImportConfig(json text of obj.ExportConfig(), element type of obj) on the SAME object; a panic
+// inside ImportConfig is recovered and reported as outcome kind 2 (the object is then observed as
+// the call left it)
+func configRoundTrip(o *hmmObj) (kind int) {
+	defer func() {
+		if r := recover(); r != nil {
+			kind = 2
+		}
+	}()
+	var cfg stat.ConfigDistribution
+	if o.v != nil {
+		cfg = o.v.ExportConfig()
+	} else {
+		cfg = o.g.ExportConfig()
+	}
+	var buf bytes.Buffer
+	if err := cfg.WriteJson(&buf); err != nil {
+		return 3
+	}
+	var back stat.ConfigDistribution
+	if err := back.ReadJson(&buf); err != nil {
+		return 3
+	}
+	t := o.g.ScalarType()
+	if o.v != nil {
+		if err := o.v.ImportConfig(back, t); err != nil {
+			return 1
+		}
+		return 0
+	}
+	if err := o.g.ImportConfig(back, t); err != nil {
+		return 1
+	}
+	return 0
 }
 
 type HistObs struct {
@@ -114,7 +160,7 @@ func observeHist(c Case) (obs HistObs, err error) {
 	if e != nil {
 		return obs, e
 	}
-	obs.Steps = append(obs.Steps, snapObj(o, false))
+	obs.Steps = append(obs.Steps, snapObj(o, 0))
 	for _, op := range c.Ops {
 		er := applyOp(o, c, op)
 		obs.Steps = append(obs.Steps, snapObj(o, er))
@@ -129,6 +175,8 @@ func coqOp(op OpJ) string {
 		return "JStart " + zl(op.States)
 	case "final":
 		return "JFinal " + zl(op.States)
+	case "config":
+		return "JConfig"
 	case "params":
 		return "JParams " + QL(op.Pi) + " " + QLL(op.Tr)
 	}
@@ -142,7 +190,7 @@ func coqHist(c Case, obs HistObs) string {
 	}
 	steps := make([]string, len(obs.Steps))
 	for i, s := range obs.Steps {
-		steps[i] = fmt.Sprintf("(%s, %s, %s, %s)", B(s.Err), GL(s.Pi), GLL(s.Tr), GLL(s.Tf))
+		steps[i] = fmt.Sprintf("(%d, %s, %s, %s)", s.Err, GL(s.Pi), GLL(s.Tr), GLL(s.Tf))
 	}
 	return fmt.Sprintf("XHist (mkHS %d %s %s %s\n     %s\n     %s\n     %s %s %s\n     %s)",
 		c.M, QL(c.Pi), QLL(c.Tr), NL(stateMap(c)), List(ops), "["+strings.Join(steps, ";\n      ")+"]",
@@ -247,7 +295,21 @@ func genHist(r *Rng, w *CaseWriter) Case {
 	sta := func() OpJ { return genStatesOp(r, m, "start", w) }
 	par := func() OpJ { return genParamsOp(r, m) }
 	cl := OpJ{Op: "clone"}
-	switch t := r.Intn(10); t {
+	cfg := OpJ{Op: "config"}
+	switch t := r.Intn(16); t {
+	case 10: // the round trip renormalises what SetParameters stored raw and re-derives Tf
+		c.Ops = []OpJ{fin(), par(), cfg}
+	case 11: // ... and re-applies the start-state mask that SetParameters dropped
+		c.Ops = []OpJ{sta(), par(), cfg, fin()}
+	case 12:
+		c.Ops = []OpJ{par(), cfg, fin(), par(), cfg}
+	case 13: // no mass left in Pi: ImportConfig returns the normalisation error, the object is unchanged
+		c.Ops = []OpJ{{Op: "start", States: []int{-1}}, cfg, par(), cfg}
+		if r.Bool() {
+			c.Ops = append([]OpJ{fin()}, c.Ops...)
+		}
+	case 14:
+		c.Ops = []OpJ{fin(), cfg, cl, par(), cfg}
 	case 0:
 		c.Ops = []OpJ{fin(), par()}
 	case 1:
@@ -265,15 +327,17 @@ func genHist(r *Rng, w *CaseWriter) Case {
 	default:
 		n := r.Range(1, 5)
 		for k := 0; k < n; k++ {
-			switch r.Pick([]int{3, 2, 4, 1}) {
+			switch r.Pick([]int{3, 2, 4, 1, 2}) {
 			case 0:
 				c.Ops = append(c.Ops, fin())
 			case 1:
 				c.Ops = append(c.Ops, sta())
 			case 2:
 				c.Ops = append(c.Ops, par())
-			default:
+			case 3:
 				c.Ops = append(c.Ops, cl)
+			default:
+				c.Ops = append(c.Ops, cfg)
 			}
 		}
 	}
@@ -306,6 +370,9 @@ func genHist(r *Rng, w *CaseWriter) Case {
 			}
 		}
 		s.Sets = [][][]int{genSets(r, m, n)}
+		if isCat(c) && r.Bool() {
+			s.Cls = genCls(r, w, m, n)[:1]
+		}
 		c.Seqs = append(c.Seqs, s)
 	}
 	return c
@@ -342,6 +409,11 @@ func emitHist(c Case, w *CaseWriter, key string) {
 		return
 	}
 	w.Count("kind:hist" + c.Sub)
+	for k, op := range c.Ops {
+		if op.Op == "config" {
+			w.Count(fmt.Sprintf("hist:config-outcome=%d", obs.Steps[k+1].Err))
+		}
+	}
 	paf := paramsAfterFinal(c)
 	if paf {
 		w.Count("hist:params-after-final")
@@ -393,6 +465,17 @@ func specHist(c Case) (pi []float64, tr, tf [][]float64) {
 			tr = op.Tr
 		case "clone":
 			maskPi()
+		case "config":
+			// a vector without mass cannot be imported (the call returns an error and leaves the object alone)
+			sum := 0.0
+			for _, x := range pi {
+				sum += x
+			}
+			if sum != 0 {
+				pi = normVec(normVec(pi))
+				maskPi()
+				tr = normRows(normRows(tr))
+			}
 		}
 	}
 	tf = tr
@@ -422,6 +505,12 @@ func histFailure(c Case) (string, bool) {
 	obs, err := observeHist(c)
 	if err != nil {
 		return "implementation failed: " + err.Error(), false
+	}
+	// no public call of a history may panic (regression: F-C15-PIVEC-ERR-SWALLOWED, ImportConfig on a Pi without mass)
+	for k, st := range obs.Steps {
+		if st.Err == 2 {
+			return "call " + opsString(c.Ops[k-1:k]) + " of the history " + opsString(c.Ops) + " panicked", false
+		}
 	}
 	pi, tr, tf := specHist(c)
 	// inference against the enumeration with the parameters the history calls for
@@ -455,6 +544,8 @@ func opsString(ops []OpJ) string {
 			s[i] = fmt.Sprintf("SetFinalStates(%v)", op.States)
 		case "params":
 			s[i] = "SetParameters"
+		case "config":
+			s[i] = "ImportConfig(ExportConfig())"
 		default:
 			s[i] = "Clone"
 		}
@@ -549,4 +640,42 @@ func knownCheckHist() []Known {
 		k2.What = "h.SetParameters(h.GetParameters()) on a constrained and on a hierarchical HMM panics: " + m1
 	}
 	return append(out, k1, k2)
+}
+
+// ---------------------------------------------------------------- constructor on a start vector without mass
+
+// kind "ctor0" (regression case of the repaired F-C15-PIVEC-ERR-SWALLOWED): the public constructors
+// (vectorDistribution.NewHmm for Sub "cat", else generic.NewHmmProbabilityVector + NewHmm) on the
+// given Pi, which has no mass, must return an error and must not panic.
+func observeCtor0(c Case) (panicked, isErr bool) {
+	defer func() {
+		if r := recover(); r != nil {
+			panicked = true
+		}
+	}()
+	b := c
+	b.Kind = "table"
+	if c.Sub == "cat" {
+		b.Kind = "cat"
+	}
+	_, err := build(b)
+	return false, err != nil
+}
+
+func propCheckCtor0(c Case) string {
+	p, e := observeCtor0(c)
+	if p {
+		return fmt.Sprintf("the constructor panicked on the start vector %v (no mass) instead of returning an error", c.Pi)
+	}
+	if !e {
+		return fmt.Sprintf("the constructor accepted the start vector %v (no mass)", c.Pi)
+	}
+	return ""
+}
+
+// the Coq side reuses the precondition case: XPre 0 0 [] panicked (not iserr) holds iff both flags are false
+func emitCtor0(c Case, w *CaseWriter, key string) {
+	p, e := observeCtor0(c)
+	w.Count("kind:ctor0" + c.Sub)
+	w.Add(fmt.Sprintf("XPre 0 0 [] %s %s", B(p), B(!e)), c, key, false)
 }
